@@ -18,12 +18,19 @@ theorem kid_disj (hd : DiffInv CK d) (ck : Bytes) :
   | none => intro k hk; simp [CDiff.empty] at hk
   | some c => exact hd.kidDisj ck c hf
 
+theorem kid_sk (hd : DiffInv CK d) (ck : Bytes) :
+    (d.kid ck).sortedKeys = KMap.keys (d.kid ck).upserts := by
+  unfold Diff.kid
+  cases hf : KMap.find ck d.kids with
+  | none => rfl
+  | some c => exact hd.kidSk ck c hf
+
 theorem inv_upsertChild (hd : DiffInv CK d) (ck k v : Bytes) (hck : CK ck = true) :
     DiffInv CK (d.upsertChild ck k v) := by
   have hs : (d.upsertChild ck k v).SortedD := by
     have h1 := Diff.sorted_setKid hd.sorted ck (CDiff.sorted_upsert (Diff.sorted_kid hd.sorted ck) k v)
     exact ⟨⟨h1.c.ups, KSet.sorted_del _ h1.c.dels⟩, h1.kids, h1.kid⟩
-  refine ⟨hs, hd.upsCK, ?_, ?_, ?_, ?_⟩
+  refine ⟨hs, hd.upsCK, ?_, ?_, ?_, ?_, hd.sk, ?_⟩
   · intro k' h'
     simp only [Diff.upsertChild] at h'
     rw [KSet.mem_del] at h'
@@ -31,7 +38,7 @@ theorem inv_upsertChild (hd : DiffInv CK d) (ck k v : Bytes) (hck : CK ck = true
   · intro k' h'
     simp only [Diff.upsertChild] at h'
     rw [KSet.mem_del] at h'
-    exact hd.delsCK k' h'.2
+    exact hd.delsNoChild k' h'.2
   · intro ck' h'
     simp only [Diff.upsertChild, KMap.find_ins]
     have : ck' ≠ ck := by rintro rfl; rw [hck] at h'; cases h'
@@ -46,13 +53,21 @@ theorem inv_upsertChild (hd : DiffInv CK d) (ck k v : Bytes) (hck : CK ck = true
       simp [KMap.find_ins, hk'.1, kid_disj hd ck k' hk'.2]
     · simp only [h, if_false] at hf
       exact hd.kidDisj ck' c hf k' hk'
+  · intro ck' c hf
+    simp only [Diff.upsertChild, KMap.find_ins] at hf
+    by_cases h : ck' = ck
+    · simp only [h, if_true, Option.some.injEq] at hf
+      subst hf
+      exact CDiff.sk_upsert (kid_sk hd ck) k v
+    · simp only [h, if_false] at hf
+      exact hd.kidSk ck' c hf
 
+/-- a child write, on a child trie that was not deleted earlier in the same transaction -/
 theorem eff_upsertChild (hb : BaseInv CK b) (hd : DiffInv CK d) (ck k v : Bytes)
-    (hck : CK ck = true) :
+    (hck : CK ck = true) (hnd : ck ∉ d.c.deletes) :
     effL b (d.upsertChild ck k v) = Logical.putIntoChild (effL b d) ck k (some v) := by
   have hd' := inv_upsertChild hd ck k v hck
   have hw := effL_wf (d := d) hb.wf
-  have hnd : ck ∉ d.c.deletes := fun h => by have := hd.delsCK ck h; rw [hck] at this; cases this
   apply Logical.ext (effL_wf hb.wf) (wf_putIntoChild hw _ _ _)
   · intro k'
     have e : (Logical.putIntoChild (effL b d) ck k (some v)).main = (effL b d).main := rfl
@@ -64,11 +79,11 @@ theorem eff_upsertChild (hb : BaseInv CK b) (hd : DiffInv CK d) (ck k v : Bytes)
     · simp [h]
   · intro ck' k'
     rw [kidOf_putIntoChild, eff_kid hb hd']
-    simp only [Diff.upsertChild, KMap.find_ins]
+    simp only [Diff.upsertChild, KMap.find_ins, KSet.mem_del]
     by_cases h : ck' = ck
     · subst h
       simp only [if_true, Option.getD_some, OMap.get_upsert, eff_kid hb hd, CDiff.upsert,
-        KSet.mem_del, KMap.find_ins, Diff.kid]
+        KSet.mem_del, KMap.find_ins, Diff.kid, hnd, ne_eq, not_true_eq_false, false_and, if_false]
       cases hf : KMap.find ck' d.kids with
       | none =>
         by_cases hk : k' = k
@@ -80,12 +95,13 @@ theorem eff_upsertChild (hb : BaseInv CK b) (hd : DiffInv CK d) (ck k v : Bytes)
         · simp [hk]
     · simp only [h, if_false]
       rw [eff_kid hb hd]
+      simp [h]
 
 theorem inv_deleteFromChild (hd : DiffInv CK d) (ck k : Bytes) (hck : CK ck = true) :
     DiffInv CK (d.deleteFromChild ck k) := by
   have hs : (d.deleteFromChild ck k).SortedD :=
     Diff.sorted_setKid hd.sorted ck (CDiff.sorted_delete (Diff.sorted_kid hd.sorted ck) k)
-  refine ⟨hs, hd.upsCK, hd.upsDel, hd.delsCK, ?_, ?_⟩
+  refine ⟨hs, hd.upsCK, hd.upsDel, hd.delsNoChild, ?_, ?_, hd.sk, ?_⟩
   · intro ck' h'
     simp only [Diff.deleteFromChild, KMap.find_ins]
     have : ck' ≠ ck := by rintro rfl; rw [hck] at h'; cases h'
@@ -103,6 +119,14 @@ theorem inv_deleteFromChild (hd : DiffInv CK d) (ck k : Bytes) (hck : CK ck = tr
       · simp [kid_disj hd ck k' hk']
     · simp only [h, if_false] at hf
       exact hd.kidDisj ck' c hf k' hk'
+  · intro ck' c hf
+    simp only [Diff.deleteFromChild, KMap.find_ins] at hf
+    by_cases h : ck' = ck
+    · simp only [h, if_true, Option.some.injEq] at hf
+      subst hf
+      exact CDiff.sk_delete (kid_sk hd ck) k
+    · simp only [h, if_false] at hf
+      exact hd.kidSk ck' c hf
 
 theorem eff_deleteFromChild (hb : BaseInv CK b) (hd : DiffInv CK d) (ck k : Bytes)
     (hck : CK ck = true) :
@@ -121,15 +145,18 @@ theorem eff_deleteFromChild (hb : BaseInv CK b) (hd : DiffInv CK d) (ck k : Byte
     · subst h
       simp only [if_true, OMap.get_erase, eff_kid hb hd, CDiff.delete, KSet.mem_ins,
         KMap.find_del, Diff.kid]
-      cases hf : KMap.find ck' d.kids with
-      | none =>
-        by_cases hk : k' = k
-        · simp [hk]
-        · simp [hk, CDiff.empty, KMap.find]
-      | some c =>
-        by_cases hk : k' = k
-        · simp [hk]
-        · simp [hk]
+      by_cases hdel : ck' ∈ d.c.deletes
+      · simp [hdel]
+      · simp only [hdel, if_false]
+        cases hf : KMap.find ck' d.kids with
+        | none =>
+          by_cases hk : k' = k
+          · simp [hk]
+          · simp [hk, CDiff.empty, KMap.find]
+        | some c =>
+          by_cases hk : k' = k
+          · simp [hk]
+          · simp [hk]
     · simp only [h, if_false]
       rw [eff_kid hb hd]
 
@@ -203,24 +230,24 @@ theorem getFromChildB_ideal (b : Logical) (ck k : Bytes) :
   | none => simp [OMap.get]
   | some es => simp [omapOps]
 
-theorem cget_sim (hb : BaseInv CK b) (hd : DiffInv CK d) (r : List Diff) (ck k : Bytes)
-    (hck : CK ck = true) :
+theorem cget_sim (hb : BaseInv CK b) (hd : DiffInv CK d) (r : List Diff) (ck k : Bytes) :
     getChildStorageTS (idealBackend Hc Hm) { base := b, txs := d :: r } ck k =
       .val (OMap.get k (kidOf (effL b d) ck)) := by
   rw [eff_kid hb hd]
-  have hnd : KSet.has ck d.c.deletes = false := by
-    cases h : KSet.has ck d.c.deletes with
-    | false => rfl
-    | true =>
-      have := hd.delsCK ck ((KSet.has_iff _ _).mp h)
-      rw [hck] at this; cases this
-  simp only [getChildStorageTS, hnd, Bool.false_eq_true, if_false, Diff.getFromChild,
-    getFromChildB_ideal]
-  split
-  · rename_i c hf
-    rw [← apply_ite Out.val, cdiff_get_ov c k _ (hd.kidDisj ck c hf k), hf]
-  · rename_i hf
-    simp [hf]
+  by_cases hdel : ck ∈ d.c.deletes
+  · have : KSet.has ck d.c.deletes = true := (KSet.has_iff _ _).mpr hdel
+    simp [getChildStorageTS, this, hdel]
+  · have hnd : KSet.has ck d.c.deletes = false := by
+      cases h : KSet.has ck d.c.deletes with
+      | false => rfl
+      | true => exact absurd ((KSet.has_iff _ _).mp h) hdel
+    simp only [getChildStorageTS, hnd, Bool.false_eq_true, if_false, Diff.getFromChild,
+      getFromChildB_ideal, hdel]
+    split
+    · rename_i c hf
+      rw [← apply_ite Out.val, cdiff_get_ov c k _ (hd.kidDisj ck c hf k), hf]
+    · rename_i hf
+      simp [hf]
 
 end reads
 
